@@ -492,6 +492,9 @@ impl AdaptiveCompressor {
         use std::hash::{Hash, Hasher};
 
         let mut hasher = DefaultHasher::new();
+        if data.is_empty() {
+            return hasher.finish();
+        }
 
         // Sample bytes from different parts of the data
         let sample_size = (data.len() / 10).max(1).min(1000);
